@@ -125,3 +125,26 @@ Theorem C10_refuted_old :
     spec_run nat nat _ _ ia rd [] [[]] [] h.
 Proof. exists hAB. vm_compute. discriminate. Qed.
 Print Assumptions C10_refuted_old.
+
+(* ---------- which objects a timeline points to, derived from the option-dictionary model -----
+   The reference structure above (a Default timeline owns a fresh scale; a caller-supplied one
+   is shared exactly with the timelines that were given the same object) is what
+   Timeline.__init__ does to the option dicts (Render/Options.v, tied to the code by the C11
+   check): a scale object of its own exactly when the caller passed none, and an engine-option
+   dict that is a fresh value built from the caller's (dset never aliases its argument in the
+   model; the tie's oracle checks object identity on the implementation). *)
+From Coq Require Import NArith.
+From Labella Require Import Render.Options Render.OptionsProofs.
+
+Theorem C10_options_own_scale : forall u r, resolve (Some u) = OOk r ->
+  r_own_scale r = match dget u K_scale with None => true | Some _ => false end.
+Proof. exact resolve_own_scale. Qed.
+Print Assumptions C10_options_own_scale.
+
+(* the merged dict holds, under "scale", the caller's object or a fresh TimeScale; under
+   "labella" the caller's engine options plus the direction; every other key is the caller's
+   value or the module default - nothing else enters a timeline's options *)
+Theorem C10_options_only_own_inputs : forall u, user_wf u ->
+  exists d, tl_merge (Some u) = OOk d /\ merged_spec u d.
+Proof. exact tl_merge_spec. Qed.
+Print Assumptions C10_options_only_own_inputs.
